@@ -432,6 +432,8 @@ class Script(object):
       self.stream, self.sizes = self.responder(b''.join(self.sent))
       self.queue = list(self.sizes)
     self.recvs += 1
+    if self.recvs > 4 * len(self.stream) + 64:
+      raise RuntimeError('socket read in a busy loop (%d recv calls for %d bytes)' % (self.recvs, len(self.stream)))
     if self.cur == 0:
       if not self.queue:
         return b''
